@@ -45,9 +45,15 @@ impl<T> Future<T> {
     /// Waits for a value and consumes the future
     pub fn get(self) -> T {
         self.latch.wait();
+        sync_point!("future.result.lock:pre", &*self.result);
         let mut lock = self.result.lock().unwrap();
+        sync_point!("future.result.lock:post", &*self.result);
         let mut ret = None;
         swap(&mut ret, &mut *lock);
+        sync_point!("future.result.unlock:pre", &*self.result);
+        #[cfg(feature = "verif-hooks")]
+        drop(lock);
+        sync_point!("future.result.unlock:post", &*self.result);
         ret.unwrap()
     }
 
@@ -56,9 +62,15 @@ impl<T> Future<T> {
         if self.latch.wait_timeout(duration).is_err() {
             return Err(self);
         }
+        sync_point!("future.result.lock:pre", &*self.result);
         let mut lock = self.result.lock().unwrap();
+        sync_point!("future.result.lock:post", &*self.result);
         let mut ret = None;
         swap(&mut ret, &mut *lock);
+        sync_point!("future.result.unlock:pre", &*self.result);
+        #[cfg(feature = "verif-hooks")]
+        drop(lock);
+        sync_point!("future.result.unlock:post", &*self.result);
         Ok(ret.unwrap())
     }
 }
@@ -66,9 +78,15 @@ impl<T> Future<T> {
 impl<T> FutureProvider<T> {
     /// Sets a value and unblocks the Future
     pub fn put(&self, value: T) {
+        sync_point!("future.result.lock:pre", &*self.result);
         let mut result = self.result.lock().unwrap();
+        sync_point!("future.result.lock:post", &*self.result);
         *result = Some(value);
         self.latch.open();
+        sync_point!("future.result.unlock:pre", &*self.result);
+        #[cfg(feature = "verif-hooks")]
+        drop(result);
+        sync_point!("future.result.unlock:post", &*self.result);
     }
 }
 
